@@ -982,6 +982,6 @@ Proof.
   - intros e v O Hs. apply (used_pick sort A B c k seg S Hk e v O).
     change (set_of_list (canon_set sort used) v) with (mem (canon_set sort used) v) in Hs.
     apply mem_In in Hs. apply canon_set_In in Hs; [exact Hs | exact S].
-  - intros ev ev'. apply (picks_ok_spaced seg _ _ _ G2).
+  - intros ev ev'. eapply picks_ok_spaced. exact G2.
   - intros ev ev' He He'. destruct (G3 ev He) as [([] & _)|(_ & Hall)]. apply Hall. exact He'.
 Qed.
